@@ -232,6 +232,8 @@ func (g *influxqlStreamingTransformGroup) BatchPoint(bp edge.BatchPointMessage) 
 	}
 	if err := g.rc.AggregatePoint(g.begin.Name(), bp); err != nil {
 		g.n.diag.Error("failed to aggregate batch point", err)
+		// Skip point, the reducer would emit its previous result again
+		return nil, nil
 	}
 	if ep, err := g.rc.EmitPoint(); err != nil {
 		g.n.diag.Error("failed to emit batch point", err)
@@ -260,6 +262,8 @@ func (g *influxqlStreamingTransformGroup) Point(p edge.PointMessage) (edge.Messa
 	err := g.rc.AggregatePoint(p.Name(), p)
 	if err != nil {
 		g.n.diag.Error("failed to aggregate point", err)
+		// Skip point, the reducer would emit its previous result again
+		return nil, nil
 	}
 
 	m, err := g.n.emit(g.rc)
